@@ -123,6 +123,19 @@ func APIPlanFromSeed(seed int64, j int) Plan {
 		if p.HoldMs > 1200 {
 			p.HoldMs = 1200
 		}
+		// Peers that never answer / never read from the first connection on
+		// are the main list's subject (an initial sync next to them can take
+		// most of its deadline); here every peer takes part in the sync, and
+		// the stop states that need it turn all of them silent / non-reading
+		// right before Stop (MuteAtStop).
+		for i, kd := range p.Peers {
+			if kd == PSilent || kd == PNoRead {
+				p.Peers[i] = PSlow
+			}
+		}
+		if p.MuteAtStop != "noread" {
+			p.ConnCap = 0
+		}
 		return p
 	}
 
